@@ -97,9 +97,34 @@ func liftU(v value, f func(value) value) value {
 	}
 	out := make([]alt, 0, len(u.alts))
 	for _, a := range u.alts {
-		out = append(out, alt{a.g, f(a.v)})
+		r, p := applyAlt(f, a.v)
+		if p != nil {
+			// the operation fails at run time on this alternative: if the alternative is
+			// feasible the path splits (and panics on that side); a dead alternative is dropped
+			if branch(boolVal(a.g)) {
+				panic(*p)
+			}
+			continue
+		}
+		out = append(out, alt{a.g, r})
+	}
+	if len(out) == 0 {
+		panic(infeasiblePath{})
 	}
 	return mergeAlts(out)
+}
+
+func applyAlt(f func(value) value, v value) (r value, p *rtPanic) {
+	defer func() {
+		if e := recover(); e != nil {
+			if rp, ok := e.(rtPanic); ok {
+				p = &rp
+				return
+			}
+			panic(e)
+		}
+	}()
+	return f(v), nil
 }
 
 func liftU2(a, b value, f func(a, b value) value) value {
